@@ -96,6 +96,13 @@ func parseRaceReports(txt string) []raceReport {
 						break
 					}
 				}
+				if strings.Contains(file, "zz_verif_") && strings.Contains(fn, "AsCaller") {
+					// harness code that stands in for a caller of the API under test (it uses what the API handed
+					// it the way the proxy does): an access of its own, not an oracle peeking at internals
+					a.site = "harness standing in for the API's caller"
+					a.frame = "caller:" + normFunc(fn)
+					break
+				}
 				if !strings.HasPrefix(fn, "reservoir/") || strings.HasPrefix(fn, "reservoir/zzverif/") || strings.Contains(file, "zz_verif_") {
 					continue
 				}
